@@ -249,28 +249,12 @@ func ruleC01ProvenanceDecrypt(c *Ctx) {
 			continue
 		}
 		c.FuncsAnalysed[shortName(f)] = true
-		good := false
-		allInstrs(f, func(i ssa.Instruction) {
-			if invokeIs(i, pkgApp, "Metastore", "Load") {
-				cc := callOf(i)
-				mp := "P:" + f.Params[2].Name()
-				if accessPath(cc.Args[1]) == mp+".ID" && accessPath(cc.Args[2]) == mp+".Created" {
-					good = true
-				}
-			}
-		})
+		_, good := loadedRecord(f, 2, 0)
 		c.check(good, shortName(f)+"/load-args", u.pos(f.Pos()), "Metastore.Load(ctx, meta.ID, meta.Created)", "the key record is not loaded under exactly the requested (ID, Created)")
 	}
 	if f := u.Method(pkgApp, "envelopeEncryption", "loadIntermediateKey"); f != nil {
 		// parent by stored ParentKeyMeta, unwrap with it
-		var rec ssa.Value
-		allInstrs(f, func(i ssa.Instruction) {
-			if invokeIs(i, pkgApp, "Metastore", "Load") {
-				for _, pr := range resultsOfType(i, func(t types.Type) bool { return isPtr(t) && typeIsNamed(t, pkgApp, "EnvelopeKeyRecord") }) {
-					rec = pr[0]
-				}
-			}
-		})
+		rec, _ := loadedRecord(f, 2, 0)
 		okParent, okUnwrap := false, false
 		var sk ssa.Value
 		allInstrs(f, func(i ssa.Instruction) {
@@ -609,4 +593,60 @@ func ruleC01CallerBuffersImmutable(c *Ctx) {
 			c.unresolved(trimPkgDirs(shortName(f))+"/"+m.meth, "cipher.AEAD."+m.meth+" call")
 		}
 	}
+}
+
+// loadedRecord: the *EnvelopeKeyRecord that f obtains from Metastore.Load for its KeyMeta parameter #metaIdx — loaded
+// directly (Load(ctx, meta.ID, meta.Created)) or through a repo helper that is given that parameter, loads the record for
+// it in the same way and returns it. ok reports that the Load arguments are exactly the parameter's ID and Created.
+func loadedRecord(f *ssa.Function, metaIdx int, depth int) (rec ssa.Value, ok bool) {
+	if f == nil || f.Blocks == nil || metaIdx >= len(f.Params) || depth > 2 {
+		return nil, false
+	}
+	mp := "P:" + f.Params[metaIdx].Name()
+	isRec := func(t types.Type) bool { return isPtr(t) && typeIsNamed(t, pkgApp, "EnvelopeKeyRecord") }
+	allInstrs(f, func(i ssa.Instruction) {
+		if rec != nil {
+			return
+		}
+		if invokeIs(i, pkgApp, "Metastore", "Load") {
+			cc := callOf(i)
+			for _, pr := range resultsOfType(i, isRec) {
+				rec = pr[0]
+			}
+			ok = accessPath(cc.Args[1]) == mp+".ID" && accessPath(cc.Args[2]) == mp+".Created"
+			return
+		}
+		cv, isCall := i.(*ssa.Call)
+		if !isCall {
+			return
+		}
+		h := staticCallee(cv)
+		if h == nil || h.Blocks == nil || h.Pkg == nil || h.Pkg.Pkg.Path() != pkgApp || h == f {
+			return
+		}
+		for k, a := range cv.Call.Args {
+			if accessPath(a) != mp || k >= len(h.Params) {
+				continue
+			}
+			hr, hok := loadedRecord(h, k, depth+1)
+			if hr == nil {
+				continue
+			}
+			// the helper returns that record on every non-error return
+			all := true
+			for _, r := range returnsOf(h) {
+				if len(r.Results) == 2 && isNilValue(returnedValue(r, 1)) && resolve(returnedValue(r, 0)) != resolve(hr) {
+					all = false
+				}
+			}
+			if !all {
+				continue
+			}
+			for _, pr := range resultsOfType(cv, isRec) {
+				rec = pr[0]
+			}
+			ok = hok
+		}
+	})
+	return rec, ok
 }
